@@ -57,6 +57,8 @@ def sym_obj(kind, s):
 
 
 def sym_int(kind, o):
+    if kind == "wide":
+        return int(o)
     if kind == "generic":
         for i, h in enumerate(HASHABLES):
             if type(h) is type(o) and h == o:
@@ -71,6 +73,8 @@ def mk_alph(kind, syms):
     bs = _bs()
     if kind == "generic":
         return bs.Alphabet([HASHABLES[s] for s in syms])
+    if kind == "wide":          # symbols are the Python ints themselves (alphabets beyond 256 symbols)
+        return bs.Alphabet([int(s) for s in syms])
     return bs.LetterAlphabet([chr(s) for s in syms])
 
 
@@ -78,6 +82,8 @@ def akind(alph_syms, hint=None):
     """letter or generic? generic symbols are small ints (< 32), letters are bytes >= 33."""
     if hint in ("letter", "generic"):
         return hint
+    if len(alph_syms) and max(alph_syms) >= 1000:
+        return "wide"
     return "generic" if (len(alph_syms) == 0 or max(alph_syms) < 32) else "letter"
 
 
@@ -896,6 +902,18 @@ def gen_trace(item):
                         other = list(pal)
                         other[0], other[-1] = other[-1], other[0]
                     a = [pal, other] if rng.random() < 0.7 else [other, pal]
+                elif rng.random() < 0.3:
+                    # "wide" alphabets of Python ints: the target has more than 256 symbols (its codes
+                    # need 16 bits) while the source is small, and the shared symbols sit at high codes
+                    nt = rng.randint(257, 330)
+                    tgt = rng.sample(range(1000, 1600), nt)
+                    ns = rng.randint(1, 40)
+                    pal = rng.sample(tgt[200:], min(ns, nt - 200)) + rng.sample(tgt[:200], rng.randint(0, 3))
+                    if rng.random() < 0.3:       # the wide alphabet as the source instead
+                        pal, tgt = list(tgt), list(tgt) + [1700, 1701][:rng.randint(0, 2)]
+                        if rng.random() < 0.5:
+                            tgt.reverse()
+                    a = [pal, tgt, [rng.randrange(len(pal)) for _ in range(rng.randint(1, 20))]]
                 else:
                     extra = [s for s in (universe if ak == "generic" else range(33, 127)) if s not in pal]
                     rng.shuffle(extra)
